@@ -4,7 +4,7 @@
    of EndToEnd.v allows (every attempt: header = the model's Last-Event-ID, body = a prefix of what
    the model's replayer + encoder send after that ID, dispatched events = the specification
    interpreter on the bytes actually read); [holds_e2e] is the property itself on the outcome. *)
-From GoSse Require Import Base Lines Fields Queue FieldParser Message MessageApi Whatwg TextLines WireDecode PrefixDecode EndToEnd Run.
+From GoSse Require Import Base Lines Fields Queue FieldParser Message MessageApi Whatwg WhatwgLines TextLines WireDecode PrefixDecode EndToEnd Run.
 Local Open Scope N_scope.
 
 Definition dec_pub (p : val) : msg :=
@@ -33,7 +33,8 @@ Fixpoint check_attempts (order : list msg) (last : bytes) (idx : N) (atts : list
       else if no_resp then
         (if val_eqb evs (VL []) then check_attempts order last (idx + 1) rest else VL [VN idx; VN 2])
       else
-        let ys := interp gosse_conn last body (if end_err then ReadError (EReader 0) else CleanEOF) in
+        (* interp_lines = interp (WhatwgLines.interp_lines_eq), linear in the length of a line *)
+        let ys := interp_lines gosse_conn last body (if end_err then ReadError (EReader 0) else CleanEOF) in
         let mine := events_of ys in
         if negb (val_eqb evs (enc_events mine)) then VL [VN idx; VN 3]                 (* dispatched <> specification *)
         else if negb (match hdr with
@@ -51,7 +52,7 @@ Definition run_e2e (i : val) : val :=
    caught up in time, and the server was still alive to shut down cleanly *)
 Definition spec_event (p : val) : val :=
   VL [VB (as_b (nth_val 0 p)); VB (as_b (nth_val 1 p));
-      VB (join_lf (flat_map text_lines (map as_b (as_l (nth_val 2 p)))))].
+      VB (join_lf (flat_map text_lines_fast (map as_b (as_l (nth_val 2 p)))))].
 
 Fixpoint drop_until_id (id : bytes) (pubs : list val) : list val :=
   match pubs with
